@@ -568,6 +568,14 @@ type Contracts struct {
 	GuardedMap []PkgText
 	GuardedMem []PkgText
 	Monitors   []MonitorSpec
+	Writers    []WritersSpec
+}
+
+// WritersSpec: only the listed functions may contain a store to the field.
+type WritersSpec struct {
+	Pkg, Field string
+	Funcs      []string
+	Line       string
 }
 
 type PkgText struct{ Pkg, Text string }
@@ -583,7 +591,7 @@ var clauseKeywords = map[string]bool{
 	"func": true, "requires": true, "ensures": true, "assumes": true, "modifies": true, "loop": true,
 	"pure": true, "property": true, "ghost": true, "lemma": true, "lockmode": true,
 	"at": true, "trusted": true, "safety": true, "end": true, "lpre": true, "lpost": true,
-	"allowread": true, "monitor": true, "lockdomain": true, "immutable": true, "unguarded": true, "guardedmap": true, "guardedmem": true,
+	"writers": true, "allowread": true, "monitor": true, "lockdomain": true, "immutable": true, "unguarded": true, "guardedmap": true, "guardedmem": true,
 }
 
 // LoadContracts reads every *_contracts_verif.go below root. modPath is the Go module path.
@@ -843,6 +851,13 @@ func (c *Contracts) parseFile(path, pkg string) error {
 				return fmt.Errorf("%s: ghost $name scalar|array Int|Bool", where)
 			}
 			c.Ghosts[parts[0]] = &GhostSpec{Name: parts[0], Array: parts[1] == "array", Sort: parts[2]}
+		case "writers":
+			// writers Type.field: f1, f2
+			k := strings.Index(rest, ":")
+			if k < 0 {
+				return fmt.Errorf("%s: malformed writers line", where)
+			}
+			c.Writers = append(c.Writers, WritersSpec{Pkg: pkg, Field: strings.TrimSpace(rest[:k]), Funcs: splitTop(rest[k+1:]), Line: where})
 		case "monitor":
 			cl, err := parseClause("monitor", rest, where)
 			if err != nil {
